@@ -26,6 +26,11 @@ var StringToHash = reverseInt8(HashToString)
 // StringToCertType is the reverse of CertTypeToString.
 var StringToCertType = reverseInt16(CertTypeToString)
 
+func init() {
+	// Type 4 was printed as "IPIX" before it got its RFC 4398 mnemonic; text written then is still read.
+	StringToCertType["IPIX"] = CertIPIX
+}
+
 // StringToStatefulType is the reverse of StatefulTypeToString.
 var StringToStatefulType = reverseInt16(StatefulTypeToString)
 
